@@ -148,6 +148,39 @@ Theorem dimensions_part_injective_in_values :
   forall d1 d2, map fst d1 = map fst d2 -> NoDup (map fst d1) -> dims_part d1 = dims_part d2 -> d1 = d2.
 Proof. exact dims_part_inj. Qed.
 
+(* The dimensions argument is a python dict: the same distinct keys with the same values inserted in another order
+   (WMS request-parameter order, the seeder's configuration, the tile service) are the same address.
+   dimensions_part sorts both key groups, so for EVERY layout function the location is the same ... *)
+Theorem tile_location_independent_of_dimension_key_order :
+  forall f ext x y z d1 d2, Permutation.Permutation d1 d2 -> NoDup (map fst d1) ->
+    file_key f ext (mkAddr x y z d1) = file_key f ext (mkAddr x y z d2).
+Proof. exact file_key_perm. Qed.
+
+(* ... hence store / load / is_cached / remove of the file cache have the same effect and the same answer in every
+   state, for every layout and link mode, whichever key order the caller used. *)
+Theorem file_cache_calls_independent_of_dimension_key_order :
+  forall layout ext link s x y z d1 d2 b, Permutation.Permutation d1 d2 -> NoDup (map fst d1) ->
+    let a1 := mkAddr x y z d1 in let a2 := mkAddr x y z d2 in
+    file_step layout ext link s (Store a1 b) = file_step layout ext link s (Store a2 b) /\
+    file_step layout ext link s (Load a1) = file_step layout ext link s (Load a2) /\
+    file_step layout ext link s (IsCached a1) = file_step layout ext link s (IsCached a2) /\
+    file_step layout ext link s (Remove a1) = file_step layout ext link s (Remove a2).
+Proof. exact file_step_dims_order. Qed.
+
+(* Conversely two dicts over the same keys (in any order) that give the same directory carry the same values. *)
+Theorem dimensions_part_equal_only_for_equal_values :
+  forall d1 d2, NoDup (map fst d1) -> Permutation.Permutation (map fst d1) (map fst d2) ->
+    dims_part d1 = dims_part d2 -> forall k, In k (map fst d1) -> dim_get d1 k = dim_get d2 k.
+Proof. exact dims_part_same_only_if_perm. Qed.
+
+(* non-vacuity: time/elevation in both orders is one directory, swapped values another one *)
+Example dimension_key_order_example :
+  let t := s2t "time" in let e := s2t "elevation" in let a := s2t "a" in let b := s2t "b" in
+  dims_part [(t, a); (e, b)] = dims_part [(e, b); (t, a)] /\
+  dims_part [(t, a); (e, b)] = [s2t "elevation-b"; s2t "time-a"] /\
+  dims_part [(t, b); (e, a)] <> dims_part [(t, a); (e, b)].
+Proof. cbv zeta. repeat split. vm_compute. discriminate. Qed.
+
 (* The files of linked single-colour tiles are never tile files (all layouts), and different colours have
    different files. *)
 Theorem single_color_files_distinct :
